@@ -52,19 +52,57 @@ def tree_hash():
     return _tree_hash
 
 
+def descendants(pid):
+    """all live descendants of pid (solvers started by a tool in their own process groups)"""
+    kids = {}
+    for d in os.listdir('/proc'):
+        if not d.isdigit():
+            continue
+        try:
+            with open(f'/proc/{d}/stat') as f:
+                st = f.read()
+            ppid = int(st[st.rindex(')') + 2:].split()[1])
+            kids.setdefault(ppid, []).append(int(d))
+        except (OSError, ValueError, IndexError):
+            continue
+    out, todo = [], [pid]
+    while todo:
+        x = todo.pop()
+        for k in kids.get(x, []):
+            out.append(k)
+            todo.append(k)
+    return out
+
+
 def run(cmd, cwd=None, timeout=None, env=None, stdin=None):
     e = dict(os.environ)
     e.setdefault('CARGO_NET_OFFLINE', 'true')
     if env:
         e.update(env)
     t0 = time.time()
+    # own session, so that a timeout also stops the solvers a tool has spawned
+    p = subprocess.Popen(cmd, cwd=cwd, env=e, stdin=subprocess.PIPE if stdin is not None else subprocess.DEVNULL,
+                         stdout=subprocess.PIPE, stderr=subprocess.PIPE, text=True, start_new_session=True)
     try:
-        p = subprocess.run(cmd, cwd=cwd, env=e, timeout=timeout, capture_output=True, text=True, input=stdin)
-        return p.returncode, p.stdout, p.stderr, time.time() - t0
-    except subprocess.TimeoutExpired as ex:
-        out = ex.stdout.decode() if isinstance(ex.stdout, bytes) else (ex.stdout or '')
-        err = ex.stderr.decode() if isinstance(ex.stderr, bytes) else (ex.stderr or '')
-        return -9, out, err + '\nTIMEOUT', time.time() - t0
+        out, err = p.communicate(input=stdin, timeout=timeout)
+        return p.returncode, out, err, time.time() - t0
+    except subprocess.TimeoutExpired:
+        import signal
+        victims = descendants(p.pid) + [p.pid]
+        try:
+            os.killpg(p.pid, signal.SIGKILL)
+        except OSError:
+            pass
+        for v in victims:
+            try:
+                os.kill(v, signal.SIGKILL)
+            except OSError:
+                pass
+        try:
+            out, err = p.communicate(timeout=10)
+        except Exception:
+            out, err = '', ''
+        return -9, out or '', (err or '') + '\nTIMEOUT', time.time() - t0
 
 
 def cache_get(key):
